@@ -158,6 +158,18 @@ Theorem C04_failure_shapes : forall bucket nlen H st0 sched i t,
 Proof. exact failure_shapes_reachable. Qed.
 Print Assumptions C04_failure_shapes.
 
+(* the caller's mapping: t_map0 is the mapping the process held when it called
+   newCounter (its other goroutines' counters point into it).  No step inside
+   a call replaces it: it changes only in a step in which a call returns (the
+   results grow); what the call re-maps or extends is its own t_map.  The
+   runner checks the same on the implementation: a call must not unmap the
+   mapping its caller holds (class caller-mapping-closed). *)
+Theorem C04_caller_mapping_kept : forall bucket nlen H me f t,
+  length (t_res (snd (step_thread bucket nlen H me f t))) = length (t_res t) ->
+  t_map0 (snd (step_thread bucket nlen H me f t)) = t_map0 t.
+Proof. exact caller_mapping_kept. Qed.
+Print Assumptions C04_caller_mapping_kept.
+
 (* nonblocking.  phi (Proofs/FileConcProgress.v) bounds the
    steps a process still needs for its current call; it depends on the file
    and on the process's own locals only, never on another process's program
